@@ -6,8 +6,8 @@ use super::super::set::SplaySet;
 use super::{IntoIter, SplayTree};
 use std::cmp::Ordering;
 
-mod h_depth;
-mod h_seq;
+pub mod h_depth;
+pub mod h_seq;
 
 /// comparator as a closure (zero-sized, statically dispatched): with a function pointer CBMC would
 /// have to consider every function of that signature as a possible call target
